@@ -216,6 +216,12 @@ def run_task(task):
             e.assume(z3.IntVal(lcount[k]) <= J.luq[k])
         e.notes['J'] = J
         e.notes['assign'] = [0 if pr is None else pr.projectID for pr in assign]
+        # the checker is a function of (instance, assignment): an earlier call on the same Model with
+        # another assignment (nobody assigned) must not influence the answer
+        try:
+            model.check_stability([None] * len(model.pairs))
+        except Exception:  # noqa - reported by the path on which that assignment is the subject
+            pass
         return model.check_stability(assign)
 
     E = S.Engine(max_paths=60000, timeout=1500)
@@ -290,6 +296,10 @@ def replay(cex):
     want = spec.stable(I, x, P)
     hdr = 'instance:\n%sassignment %s; no blocking pair: %s' % (spec.inst_to_text(I, trailer=False), d['assign'], want)
     try:
+        try:
+            m.check_stability([None] * len(m.pairs))
+        except Exception:  # noqa
+            pass
         got = m.check_stability(assign)
     except Exception as e:  # noqa
         return True, hdr + '\nModel.check_stability raised %s: %s' % (type(e).__name__, e)
